@@ -255,6 +255,9 @@ pub enum Op
     /* storage fault on a state file between invocations: the pick-th history file (or the table when
        `table`) is truncated to `keep` bytes, or replaced by garbage when `keep` is None */
     DamageState{ table : bool, pick : u32, keep : Option<u32> },
+    /* rewrite the rules files with the same rules in the other documented notation
+       (flat paths / tab-indented directory bundles) */
+    Restyle{ bundled : bool },
 }
 
 impl Op
@@ -285,6 +288,7 @@ impl Op
             Op::DeleteRulerDir{..} => "delete-ruler-dir",
             Op::Move{..} => "move",
             Op::DamageState{..} => "damage-state-file",
+            Op::Restyle{..} => "restyle-rules-file",
         }
     }
 
@@ -306,6 +310,7 @@ impl Op
             Op::DeleteCacheContent{ content } => o.set("content", J::Str(show_bytes(content))),
             Op::DeleteRulerDir{ part } => o.set("part", J::Str(format!("{:?}", part))),
             Op::Move{ from, to } => o.set("from", J::s(from)).set("to", J::s(to)),
+            Op::Restyle{ bundled } => o.set("notation", J::s(if *bundled { "directory bundles" } else { "flat paths" })),
             Op::DamageState{ table, pick, keep } => o.set("file", J::Str(if *table { "current_file_states".to_string() } else { format!("history file #{}", pick) }))
                 .set("how", J::Str(match keep { Some(n) => format!("truncated to {} bytes", n), None => "replaced by garbage".to_string() })),
         }
